@@ -58,6 +58,7 @@ func (c14) Batch(seed uint64, wid, batch, count int, deadline time.Time, emit fu
 		if time.Now().After(deadline) {
 			break
 		}
+		emit(&Record{T: "start", Runs: i})
 		r := newRng(seed, uint64(wid), uint64(batch), uint64(i))
 		sc := genScenario(r, i == 0)
 		res := runScenario(sc, rw)
@@ -130,6 +131,12 @@ func schedName(s int) string {
 		return "store"
 	}
 	return "replay"
+}
+
+func (c14) GenCase(seed uint64, wid, batch, i int) json.RawMessage {
+	sc := genScenario(newRng(seed, uint64(wid), uint64(batch), uint64(i)), i == 0)
+	b, _ := json.Marshal(c14Case{sc})
+	return b
 }
 
 func (c14) Replay(rf *ReplayFile) *Violation {
